@@ -5,7 +5,7 @@ From Coq Require Import NArith List Bool.
 Import ListNotations.
 From Coq Require Import ZArith.
 From CXV Require Import Gen.TokTy Gen.ParserTables Parse.Balanced Gen.Blocks Parse.BlocksSM.
-From CXV Require Import Base.Regex Base.Cost Gen.LexRules Lex.PlyLoop Gen.StreamTables Stream.TokBuf Fmt.TokFmt PP.Filters Misc.ReprModel Gen.Schema Parse.Fold Parse.Declarator Parse.DeclSpec Parse.EnumList Parse.BaseClause Parse.NsHeader Parse.Specs Parse.VarStmt Parse.FnTail Parse.Init Parse.Members Parse.MethodTail Parse.Template Parse.PQName Parse.Using Parse.EnumDecl Parse.ClassEnum.
+From CXV Require Import Base.Regex Base.Cost Gen.LexRules Lex.PlyLoop Gen.StreamTables Stream.TokBuf Fmt.TokFmt PP.Filters Misc.ReprModel Gen.Schema Parse.Fold Parse.Declarator Parse.DeclSpec Parse.EnumList Parse.BaseClause Parse.NsHeader Parse.Specs Parse.VarStmt Parse.FnTail Parse.Init Parse.Members Parse.MethodTail Parse.Template Parse.PQName Parse.Using Parse.EnumDecl Parse.ClassEnum Parse.TemplateArg.
 Open Scope N_scope.
 
 Definition nlen {A} (l : list A) : N := N.of_nat (length l).
@@ -659,8 +659,23 @@ Definition run_class_enum (args : list N) : list N :=
   | _ => [1; 0]
   end.
 
+(* 101: a template argument list (after the '<').
+   Output: 0, rest length, count, per argument: 1 pack <type> | 2 pack length tokens *)
+Definition run_tspec (args : list N) : list N :=
+  let toks := dec_tks args in
+  match tspec (S (length toks)) (4 * length toks + 8) [] toks with
+  | DOk (l, rest) =>
+      0 :: nlen rest :: nlen l ::
+        flat_map (fun a => match a with
+                           | AType t p => 1 :: bN p :: enc_ty t
+                           | AVal v p => 2 :: bN p :: nlen v :: enc_tks v
+                           end) l
+  | DErr e => [1; e]
+  end.
+
 Definition run_case (cmd : N) (args : list N) : list N :=
   match cmd, args with
+  | 101, _ => run_tspec args
   | 100, _ => run_class_enum args
   | 99, _ => run_enum_decl args
   | 98, _ => run_using args
